@@ -146,6 +146,21 @@ def observe(case):
         if ctx is not None:
             given = (given, types.MappingProxyType(dict(ctx)), collections.OrderedDict(ctx), collections.ChainMap(dict(ctx), {}),
                      collections.defaultdict(lambda: None, ctx), collections.defaultdict(int, ctx))[flavour]
+        if ctx and common.pick(repr(case.get("term"))[:200], 7) == 0:
+            # first an evaluation that fails part-way (a context whose look-up raises), then the real one on the same tree
+            class Failing(dict):
+                def get(self, key, default=None):
+                    raise RuntimeError("look-up failed")
+
+                def __getitem__(self, key):
+                    raise RuntimeError("look-up failed")
+            try:
+                tree.evaluate(Failing(ctx))
+            except BaseException:  # noqa
+                pass
+        if given is not None and flavour == 0 and common.pick(repr(case.get("term"))[:200], 3) == 0:
+            import numpy as np
+            given = {k_: (np.float64(v_) if isinstance(v_, float) else v_) for k_, v_ in given.items()}
         with warnings.catch_warnings():
             warnings.simplefilter("ignore")
             r = tree.evaluate(given)
